@@ -67,6 +67,9 @@ type Engine struct {
 	LightQueries bool // run scalar queries after each tx
 	NoDumpCheck  bool
 	NoModeTwin   bool // do not run each transaction in simulation mode first
+	RecordBlocks bool // keep the bytes and results of every delivered block (block-partition replays)
+	BlockLog     [][][]byte
+	ResLog       []chain.TxResult
 	TxCount      int
 	Watch        []string // extra bech32 addresses whose balances are tracked
 	history      []string // short textual history for replay files
@@ -269,6 +272,10 @@ func (e *Engine) Exec(tx Tx) *Report {
 		return rep
 	}
 	rc.LogCall("DONE")
+	if e.RecordBlocks {
+		e.BlockLog = append(e.BlockLog, block)
+		e.ResLog = append(e.ResLog, res...)
+	}
 	main := len(res) - 1
 	mainKey := hex.EncodeToString(res[main].TxHash[:])
 	for i := 0; i < main; i++ {
